@@ -94,7 +94,7 @@ impl Xot {
             // already where it is asked to be
             return Ok(());
         }
-        self.remove_consolidate_text_nodes(self.previous_sibling(child), self.next_sibling(child));
+        self.detach_for_move(child, None);
         if self.add_consolidate_text_nodes(child, self.last_child(parent), None) {
             return Ok(());
         }
@@ -339,7 +339,7 @@ impl Xot {
             // already where it is asked to be
             return Ok(());
         }
-        self.remove_consolidate_text_nodes(self.previous_sibling(child), self.next_sibling(child));
+        self.detach_for_move(child, None);
         if self.add_consolidate_text_nodes(child, None, self.first_child(parent)) {
             return Ok(());
         }
@@ -386,10 +386,7 @@ impl Xot {
             // already where it is asked to be
             return Ok(());
         }
-        self.remove_consolidate_text_nodes(
-            self.previous_sibling(new_sibling),
-            self.next_sibling(new_sibling),
-        );
+        let reference_node = self.detach_for_move(new_sibling, Some(reference_node));
         if self.add_consolidate_text_nodes(
             new_sibling,
             Some(reference_node),
@@ -410,10 +407,7 @@ impl Xot {
             // already where it is asked to be
             return Ok(());
         }
-        self.remove_consolidate_text_nodes(
-            self.previous_sibling(new_sibling),
-            self.next_sibling(new_sibling),
-        );
+        let reference_node = self.detach_for_move(new_sibling, Some(reference_node));
         if self.add_consolidate_text_nodes(
             new_sibling,
             self.previous_sibling(reference_node),
@@ -893,6 +887,25 @@ impl Xot {
     /// off this behavior so text nodes are never merged by calling this.
     pub fn set_text_consolidation(&mut self, consolidate: bool) {
         self.text_consolidation = consolidate;
+    }
+
+    // Take a node that is about to be moved out of its current position and
+    // consolidate the text nodes that become adjacent there. If that merges
+    // the reference node of the move away (it was the next sibling of the
+    // moved node), the node it was merged into is the reference from then on.
+    // Returns the reference node to use.
+    fn detach_for_move(&mut self, node: Node, reference_node: Option<Node>) -> Node {
+        let prev_node = self.previous_sibling(node);
+        let next_node = self.next_sibling(node);
+        node.get().detach(self.arena_mut());
+        let merged = self.remove_consolidate_text_nodes(prev_node, next_node);
+        match reference_node {
+            Some(reference_node) if merged && Some(reference_node) == next_node => {
+                prev_node.unwrap()
+            }
+            Some(reference_node) => reference_node,
+            None => node,
+        }
     }
 
     fn add_sibling_structure_check(
